@@ -281,6 +281,13 @@ def run_container(P, pid, cspec, tier, seed):
             batches.append(("valgrind-memcheck", sample))
         except Exception as e:
             out["problems"].append(f"{container}/valgrind: {str(e)[:200]}")
+    if cspec.get("coverage") or tier == "thorough":
+        try:
+            allh = [h for _, hs in batches for h in hs]
+            rng.shuffle(allh)
+            out["c_coverage"] = vlib.coverage_run(container, allh, 1500 if tier == "quick" else 6000)
+        except Exception as e:
+            out["problems"].append(f"{container}/coverage: {str(e)[:200]}")
     out["stats"] = dict(runner.stats(), streams=[(b, len(h)) for b, h in batches], focus=focus)
     out["samples"] = runner.samples
     return out
@@ -342,6 +349,8 @@ def run_check(pid, tier, seed, replay=None):
         violations += r["violations"]
         fidelity += r["fidelity"]
         if r["stats"]:
+            if r.get("c_coverage"):
+                r["stats"]["c_source_coverage"] = r["c_coverage"]
             stats.append(r["stats"])
         all_samples += r["samples"][:2]
         lean["problems"] += r["problems"]
